@@ -39,6 +39,6 @@ def step (r : Reg) (fs : List String) : Reg × String :=
   | ["lists"] => (r, showLists r)
   | _ => (r, "bad-op")
 
-def main : IO Unit := runLoop ({} : Reg) step
+def modes : List (String × IO Unit) := [("deny", runLoop ({} : Reg) step)]
 
 end DrvDeny
